@@ -29,6 +29,14 @@ structure Cfg where
   -- (second extension) shape of `wait_procs`' bookkeeping; obligations `cfg_wait_procs_shape`
   loopsOverAlive : Bool := true     -- every `for proc in …` iterates `alive`, the name `while` tests and `alive = alive - gone` refreshes
   aliveIsSet : Bool := true         -- `alive = set(procs)` (between the timeout validation and the callable test), `gone = set()`
+  -- (third round) obligations `cfg_pid_test`, `cfg_waitpid_flags`, `cfg_check_gone_order`
+  pidRejectsZero : Bool := true     -- the first test of `wait_pid` raises ValueError for pid = 0 …
+  pidRejectsNeg : Bool := true      -- … and for every negative pid (`os.waitpid(-1, …)` would wait for ANY child)
+  pidRejectsPos : Bool := false     -- … and for some positive pid (never, in the code the proofs were made on)
+  flagsTimeout : Nat := 1           -- second argument of `os.waitpid` when a timeout is given (`os.WNOHANG` = 1)
+  flagsBlocking : Nat := 0          -- … and without a timeout (WUNTRACED = 2 / WCONTINUED = 8 would report stops)
+  rcBeforeCb : Bool := true         -- `check_gone`: `proc.returncode = returncode` precedes `callback(proc)`
+  goneBeforeCb : Bool := true       -- `check_gone`: `gone.add(proc)` precedes `callback(proc)`
 
 def Cfg.i0 (c : Cfg) : Rat := (c.i0n : Rat) / (c.i0d : Rat)
 def Cfg.cap (c : Cfg) : Rat := (c.capn : Rat) / (c.capd : Rat)
@@ -212,6 +220,13 @@ def procWait (cfg : Cfg) (env : Env) (timeout : Option Rat) (fuel : Nat) (now : 
 
 /-! ## `wait_procs` -/
 
+/-- what the callback can see of its argument at the moment it is called -/
+structure CbView where
+  pid : Nat
+  rc : Option (Option Int)            -- `proc.returncode` at that moment (`none` = no such attribute yet)
+  inGone : Bool                       -- is `proc` already in the `gone` set at that moment?
+  deriving DecidableEq, Repr
+
 structure WP where
   now : Rat
   objs : Nat → PObj                   -- pid ↦ the Process object
@@ -219,15 +234,40 @@ structure WP where
   cbLog : List Nat                    -- pids the callback was called with, in order
   sleeps : List Rat
   calls : List (Nat × Rat)            -- every `proc.wait(timeout=t)` made: (pid, t)
+  cbSeen : List CbView := []          -- what each callback invocation saw, in order
 
 def WP.setObj (w : WP) (p : PObj) : WP :=
   { w with objs := fun q => if q = p.pid then p else w.objs q }
 
-/-- body of `check_gone` after a wait that did not raise -/
+/-- `proc.returncode = returncode` -/
+def stepSetRc (w : WP) (pid : Nat) (v : Option Int) : WP :=
+  { w with objs := fun q => if q = pid then { w.objs pid with returncode := some v } else w.objs q }
+
+/-- `gone.add(proc)` -/
+def stepAddGone (w : WP) (pid : Nat) : WP :=
+  { w with gone := if pid ∈ w.gone then w.gone else w.gone ++ [pid] }
+
+/-- `if callback is not None: callback(proc)` — the callback sees the object as it is NOW -/
+def stepCallback (hasCb : Bool) (w : WP) (pid : Nat) : WP :=
+  if hasCb then
+    { w with cbLog := w.cbLog ++ [pid]
+             cbSeen := w.cbSeen ++ [⟨pid, (w.objs pid).returncode, decide (pid ∈ w.gone)⟩] }
+  else w
+
+/-- body of `check_gone` after a wait that did not raise, in the order of the source:
+    `proc.returncode = returncode; gone.add(proc); if callback is not None: callback(proc)` -/
 def markGone (hasCb : Bool) (w : WP) (pid : Nat) (v : Option Int) : WP :=
-  { w with objs := fun q => if q = pid then { w.objs pid with returncode := some v } else w.objs q
-           gone := if pid ∈ w.gone then w.gone else w.gone ++ [pid]
-           cbLog := if hasCb then w.cbLog ++ [pid] else w.cbLog }
+  stepCallback hasCb (stepAddGone (stepSetRc w pid v) pid) pid
+
+/-- the same three steps with the callback moved in front of one or both of the others
+    (`rcFirst` / `goneFirst` = facts `rcBeforeCb` / `goneBeforeCb`): the FINAL state differs from
+    `markGone` only in what the callback saw -/
+def markGoneO (rcFirst goneFirst hasCb : Bool) (w : WP) (pid : Nat) (v : Option Int) : WP :=
+  match rcFirst, goneFirst with
+  | true, true => stepCallback hasCb (stepAddGone (stepSetRc w pid v) pid) pid
+  | true, false => stepAddGone (stepCallback hasCb (stepSetRc w pid v) pid) pid
+  | false, true => stepSetRc (stepCallback hasCb (stepAddGone w pid) pid) pid v
+  | false, false => stepAddGone (stepSetRc (stepCallback hasCb w pid) pid v) pid
 
 /-- `check_gone(proc, timeout)`; `.error o` = exception `o` propagates out of `wait_procs` -/
 def checkGone (cfg : Cfg) (envOf : Nat → Env) (hasCb : Bool) (fuel : Nat) (w : WP) (pid : Nat)
